@@ -1113,51 +1113,87 @@ def extract_item(repo_root, rel, container, kind, name, opts, unit_rules, sectio
         ftxt = sf.text[it.start:it.end]
         ftoks = lex(ftxt)
         want = norm_tokens(opts.get('arm', ''))
-        if not want:
-            raise ExtractError('bad-template', '%s: region needs arm=' % where)
-        sgt = [(k, t) for k, t in enumerate(ftoks) if t[0] not in ('ws', 'lcomment', 'bcomment')]
-        hits = []
-        for a in range(len(sgt)):
-            acc = ''
-            prev = None
-            b = a
-            while b < len(sgt) and len(acc) < len(want):
-                u = sgt[b][1]
-                if prev is not None and prev[0] in ('id', 'num', 'life') and u[0] in ('id', 'num', 'life'):
-                    acc += ' '
-                acc += u[1]
-                prev = u
-                b += 1
-            if acc == want and b < len(sgt) and sgt[b][1][1] == '{':
-                hits.append(sgt[b][0])
-        armn = int(opts.get('armnth', '1'))
-        if len(hits) < armn:
-            raise ExtractError('anchor-lost', '%s: arm `%s` #%d not found in fn %s (%d hits)' % (where, opts['arm'], armn, name, len(hits)))
-        ob = hits[armn - 1]
-        cb = match_close(ftoks, ob)
-        raw = ftxt[ftoks[ob][2]:ftoks[cb][3]]
-        sha = hashlib.sha256(raw.encode()).hexdigest()
-        body = strip_comments(raw)
-        header = None
-        rest_sections = []
-        for sk, sa, sb in sections:
-            if sk == 'header':
-                header = strip_comments(sb).strip()
-            elif sk == 'drop':
-                btoks = lex(body)
-                k = find_anchor(body, btoks, sa[0], 1, where + ' @drop')
-                e = stmt_end(btoks, k)
-                log.append(('R18', 'dropped statement `%s`' % norm_ws(body[btoks[k][2]:btoks[e][3]])))
-                body = body[:btoks[k][2]] + body[btoks[e][3]:]
-            else:
-                rest_sections.append((sk, sa, sb))
-        if not header:
-            raise ExtractError('bad-template', '%s: region needs @header' % where)
-        log.append(('R18', 'arm `%s` #%d of fn %s lifted into `%s`' % (opts['arm'], armn, name, norm_ws(header)[:120])))
-        text = header + ' ' + body
-        sections = rest_sections
-        start_line, end_line = sf.line_of(it.start + ftoks[ob][2]), sf.line_of(it.start + ftoks[cb][3])
-        kind_eff = 'fn'
+        if not want and 'stmt' not in opts:
+            raise ExtractError('bad-template', '%s: region needs arm= or stmt=' % where)
+        if 'stmt' in opts:
+            # statement region: the k-th statement matching a structural anchor (e.g. stmt=stmt:let prev, stmtnth=1),
+            # optionally through the statement matching `upto=` (inclusive), becomes the body; `tail=` (template text, e.g.
+            # the name of the bound variable) is appended as the result expression
+            k0 = find_anchor(ftxt, ftoks, opts['stmt'], int(opts.get('stmtnth', '1')), where + ' region stmt')
+            e0 = stmt_end(ftoks, k0)
+            if 'upto' in opts:
+                k1 = find_anchor(ftxt, ftoks, opts['upto'], int(opts.get('uptonth', '1')), where + ' region upto')
+                if k1 < k0:
+                    raise ExtractError('anchor-lost', '%s: upto= statement precedes stmt=' % where)
+                e0 = stmt_end(ftoks, k1)
+            raw = ftxt[ftoks[k0][2]:ftoks[e0][3]]
+            sha = hashlib.sha256(raw.encode()).hexdigest()
+            body = '{\n' + strip_comments(raw) + '\n' + opts.get('tail', '') + '\n}'
+            header = None
+            rest_sections = []
+            for sk, sa, sb in sections:
+                if sk == 'header':
+                    header = strip_comments(sb).strip()
+                elif sk == 'drop':
+                    btoks = lex(body)
+                    kk = find_anchor(body, btoks, sa[0], 1, where + ' @drop')
+                    ee = stmt_end(btoks, kk)
+                    log.append(('R18', 'dropped statement `%s`' % norm_ws(body[btoks[kk][2]:btoks[ee][3]])))
+                    body = body[:btoks[kk][2]] + body[btoks[ee][3]:]
+                else:
+                    rest_sections.append((sk, sa, sb))
+            if not header:
+                raise ExtractError('bad-template', '%s: region needs @header' % where)
+            log.append(('R18', 'statement(s) `%s`%s of fn %s lifted into `%s`%s' % (opts['stmt'], (' .. `%s`' % opts['upto']) if 'upto' in opts else '', name, norm_ws(header)[:120], (' with result `%s`' % opts['tail']) if opts.get('tail') else '')))
+            text = header + ' ' + body
+            sections = rest_sections
+            start_line, end_line = sf.line_of(it.start + ftoks[k0][2]), sf.line_of(it.start + ftoks[e0][3])
+            kind_eff = 'fn'
+            want = None
+        if want:
+            sgt = [(k, t) for k, t in enumerate(ftoks) if t[0] not in ('ws', 'lcomment', 'bcomment')]
+            hits = []
+            for a in range(len(sgt)):
+                acc = ''
+                prev = None
+                b = a
+                while b < len(sgt) and len(acc) < len(want):
+                    u = sgt[b][1]
+                    if prev is not None and prev[0] in ('id', 'num', 'life') and u[0] in ('id', 'num', 'life'):
+                        acc += ' '
+                    acc += u[1]
+                    prev = u
+                    b += 1
+                if acc == want and b < len(sgt) and sgt[b][1][1] == '{':
+                    hits.append(sgt[b][0])
+            armn = int(opts.get('armnth', '1'))
+            if len(hits) < armn:
+                raise ExtractError('anchor-lost', '%s: arm `%s` #%d not found in fn %s (%d hits)' % (where, opts['arm'], armn, name, len(hits)))
+            ob = hits[armn - 1]
+            cb = match_close(ftoks, ob)
+            raw = ftxt[ftoks[ob][2]:ftoks[cb][3]]
+            sha = hashlib.sha256(raw.encode()).hexdigest()
+            body = strip_comments(raw)
+            header = None
+            rest_sections = []
+            for sk, sa, sb in sections:
+                if sk == 'header':
+                    header = strip_comments(sb).strip()
+                elif sk == 'drop':
+                    btoks = lex(body)
+                    k = find_anchor(body, btoks, sa[0], 1, where + ' @drop')
+                    e = stmt_end(btoks, k)
+                    log.append(('R18', 'dropped statement `%s`' % norm_ws(body[btoks[k][2]:btoks[e][3]])))
+                    body = body[:btoks[k][2]] + body[btoks[e][3]:]
+                else:
+                    rest_sections.append((sk, sa, sb))
+            if not header:
+                raise ExtractError('bad-template', '%s: region needs @header' % where)
+            log.append(('R18', 'arm `%s` #%d of fn %s lifted into `%s`' % (opts['arm'], armn, name, norm_ws(header)[:120])))
+            text = header + ' ' + body
+            sections = rest_sections
+            start_line, end_line = sf.line_of(it.start + ftoks[ob][2]), sf.line_of(it.start + ftoks[cb][3])
+            kind_eff = 'fn'
     else:
         it = sf.find(container, kind, name, nth)
         raw = sf.text[it.start:it.end]
